@@ -26,29 +26,33 @@ func Glob(pattern, input string, opts ...Option) bool {
 	for _, o := range opts {
 		o(&g)
 	}
+	// Greedy matching with backtracking to the most recent '*': star is the
+	// pattern index just after that '*', mark the input index it currently
+	// extends to.
 	i := 0
 	j := 0
-	asterisk := false
-	for i < len(pattern) {
-		if pattern[i] == '*' {
-			asterisk = true
+	star := -1
+	mark := 0
+	for j < len(input) {
+		switch {
+		case i < len(pattern) && pattern[i] == '*':
+			star = i + 1
+			mark = j
 			i++
-		} else {
-			match := pattern[i] == input[j]
-			if !asterisk && !match {
-				return false
-			}
-			if match {
-				i++
-			}
-			if asterisk && match {
-				asterisk = false
-			}
+		case i < len(pattern) && pattern[i] == input[j]:
+			i++
 			j++
-		}
-		if j >= len(input) {
-			break
+		case star >= 0:
+			// let the last '*' absorb one more byte and retry
+			mark++
+			i = star
+			j = mark
+		default:
+			return false
 		}
 	}
-	return i == len(pattern) && (asterisk || j == len(input))
+	for i < len(pattern) && pattern[i] == '*' {
+		i++
+	}
+	return i == len(pattern)
 }
